@@ -87,7 +87,8 @@ type reqRec struct {
 	CSRErr string
 	// Published is the file set found in the write directory when this request arrived (i.e. the
 	// state left by all earlier fetches).
-	Anchors int // anchors version current at the request
+	Anchors  int       // anchors version current when the fetch returned (when the file set is written)
+	Answered time.Time // injected clock when the issuer answered (zero: still in flight)
 }
 
 type issuer struct {
@@ -97,11 +98,14 @@ type issuer struct {
 	mu     sync.Mutex
 	script []Item
 	reqs   []reqRec
-	// gate, when non-nil, makes every request announce itself on reqCh and wait for a reply kind.
-	gate  chan string
+	// gate, when non-nil, makes every request announce itself on reqCh and wait for the reply item
+	// (an item with an empty kind means: take the next item of the script).
+	gate  chan Item
 	reqCh chan int
 	// onReq is called (outside mu) at the beginning of every request.
 	onReq func(idx int)
+	// onAnswer is called (outside mu) when the reply item of request idx is known, before it is returned.
+	onAnswer func(idx int, kind string)
 	// taFailNext: the trust anchor source fails on its next call (set by kAnchorErr).
 	taFailNext bool
 }
@@ -130,12 +134,12 @@ func (is *issuer) fn(ctx context.Context, csrDER []byte) ([]*x509.Certificate, e
 	if gate != nil {
 		is.reqCh <- idx
 		select {
-		case k := <-gate:
-			it = Item{Kind: k, A: -int64(time.Minute), B: int64(time.Hour)}
+		case it = <-gate:
 		case <-ctx.Done():
 			return nil, ctx.Err()
 		}
-	} else {
+	}
+	if it.Kind == "" {
 		is.mu.Lock()
 		if len(is.script) > 0 {
 			it = is.script[0]
@@ -145,9 +149,14 @@ func (is *issuer) fn(ctx context.Context, csrDER []byte) ([]*x509.Certificate, e
 		}
 		is.mu.Unlock()
 	}
+	answeredAt := is.clk.Now()
+	if is.onAnswer != nil {
+		is.onAnswer(idx, it.Kind)
+	}
 
 	finish := func(ok bool, nb, na time.Time) {
 		is.mu.Lock()
+		is.reqs[idx].Answered = answeredAt
 		is.reqs[idx].Kind = it.Kind
 		is.reqs[idx].OK = ok
 		is.reqs[idx].NB, is.reqs[idx].NA = nb, na
@@ -165,7 +174,7 @@ func (is *issuer) fn(ctx context.Context, csrDER []byte) ([]*x509.Certificate, e
 		finish(false, time.Time{}, time.Time{})
 		return nil, errors.New("bad csr")
 	}
-	now := rec.Stamp
+	now := answeredAt // the certificate is signed when the issuer answers
 	tmpl := &x509.Certificate{
 		SerialNumber: big.NewInt(int64(idx) + 1000),
 		NotBefore:    now.Add(time.Duration(it.A)),
